@@ -40,8 +40,10 @@ ASSUMPTIONS = [
     "idc_star's answer can depend on PYTHONHASHSEED (corpus/C08/hash_order_dependent.json: the keys taken from a Python set "
     "in get_new_outcomes_and_conditions decide which condition is exchanged first); the model takes that order as the "
     "parameter kordf, the harness drives the real code through both orders and judges every distinct answer",
-    "termination of the model is by fuel (2(|outcomes|+|conditions|) + |V| + 4), checked on every generated input, proved only "
-    "in part; the division `e / d` is modelled for the operands IDC* can produce (an ID* estimand is never a Fraction)",
+    "termination of the model is by fuel (2(|outcomes|+|conditions|) + |V| + 4): the inner ID* calls terminate by theorem "
+    "(C07 idstar_never_out_of_fuel); for IDC*'s own line-4 recursion no decreasing measure is proved (|conditions| and the "
+    "number of keys do NOT always decrease, see Props/C08.lean), it is checked on every generated input (an exhausted fuel would "
+    "be a correspondence disagreement; 50 000 extra random inputs: depth <= |conditions| + 1); the division `e / d` is modelled for the operands IDC* can produce (an ID* estimand is never a Fraction)",
     "pairs in which the same counterfactual variable V_S occurs both as an outcome and as a condition are left out of the "
     "checked domain (idc_star merges the two dicts, the condition's value silently wins)",
     "a wrong value / wrong Zero is classified by the FIRST step of IDC*'s own chain of claims that an independent exact "
@@ -325,6 +327,10 @@ def _judge(case, res, exc, n_models, strategy=None):
             return None, None
         msg, kind = f"Zero returned although the joint event has positive probability: {w}", "zero"
     else:
+        bad = C07.contradictory_subscripts(expr)
+        if bad is not None:
+            return (f"estimand {expr} contains the term {bad} whose subscript set gives one variable both values: it "
+                    "denotes nothing"), "illformed"
         w = S.check_estimand(g, jt, expr, case.get("seed", 0), n_models=n_models, cond=cond)
         if w is None:
             return None, None
@@ -337,6 +343,11 @@ def _judge(case, res, exc, n_models, strategy=None):
     if kind == "value":
         reps = [r for r in _f11_repaired(case, expr) if r != expr]
         if any(S.check_estimand(g, jt, rep, case.get("seed", 0), n_models=n_models, cond=cond) is None for rep in reps):
+            if expr[0] == "frac" and not isinstance(expr[1], str) and expr[1][0] == "P":
+                # F11 lives in Expression.conditional (sums / products); for a single term Probability.conditional is used,
+                # which leaves the intervention subscripts alone: a wrong normalisation of a single term is NOT F11
+                return msg + (" [numerator right, a single P[...](...) term; its normalisation also sums over names that occur "
+                              "only as subscripts -- Probability.conditional does not do that]"), "normalisation:single-term"
             return msg + " [numerator right; only the normalisation of Expression.conditional is wrong: F11]", "F11"
     if kind == "value" and not isinstance(expr, str) and expr[0] == "frac":
         shared = {int(var[1]) for var, _ in case["outcomes"]} & {int(var[1]) for var, _ in case["conditions"]}
@@ -357,7 +368,7 @@ def _in_domain(case):
     return C18._in_domain({"g": case["g"], "event": case["outcomes"] + case["conditions"]})
 
 
-def _evaluate(case, n_models=8, with_unpatched=True):
+def _evaluate(case, n_models=8, with_unpatched=True, all_verdicts=False):
     strategies = K.id_strategies(joint(case))
     by_order, excs, strat_of = [], {}, {}
     for s in strategies:
@@ -374,26 +385,36 @@ def _evaluate(case, n_models=8, with_unpatched=True):
         results = [r0] + results
     dom = _in_domain(case)
     fail = kind = fail_strategy = None
+    verdicts = []     # (answer, strategy, failure kind | None) for every DISTINCT answer, in order of first occurrence
     if dom:
         seen = []
         for r in results:
             if r in seen:
                 continue
             seen.append(r)
-            fail, kind = _judge(case, r, excs.get(json.dumps(r)), n_models, strat_of.get(json.dumps(r)))
-            if fail:
-                fail_strategy = strat_of.get(json.dumps(r))
+            f1, k1 = _judge(case, r, excs.get(json.dumps(r)), n_models, strat_of.get(json.dumps(r)))
+            verdicts.append((r, strat_of.get(json.dumps(r)), k1))
+            if f1 and not fail:
+                fail, kind, fail_strategy = f1, k1, strat_of.get(json.dumps(r))
+            if fail and not all_verdicts:
                 break
-    return {"by_order": by_order, "unpatched": r0, "fail": fail, "kind": kind, "in_domain": dom, "strategy": fail_strategy}
+    order_verdict = None
+    if len(verdicts) > 1 and all_verdicts:
+        wrong = [v for v in verdicts if v[2]]
+        order_verdict = "all-correct" if not wrong else "all-wrong" if len(wrong) == len(verdicts) else "mixed"
+    return {"by_order": by_order, "unpatched": r0, "fail": fail, "kind": kind, "in_domain": dom, "strategy": fail_strategy,
+            "order_verdict": order_verdict,
+            "verdicts": [[json.dumps(a)[:160], list(s_) if s_ is not None else None, k_] for a, s_, k_ in verdicts]}
 
 
-COARSE = ("F11", "inherited", "reassociation", "exchange:polarity", "exchange:conditions", "exchange:separation",
+COARSE = ("F11", "normalisation:single-term", "inherited", "reassociation", "exchange:polarity", "exchange:conditions", "exchange:separation",
           "conditional:shared-base")
 
 
 def _coarse_key(case, r):
     """finding key of the failures that are explained by an identified broken step / another listed defect"""
-    if r["kind"] in ("F11", "reassociation", "conditional:shared-base") or r["kind"].startswith("exchange:"):
+    if r["kind"] in ("F11", "normalisation:single-term", "reassociation", "conditional:shared-base") or \
+            r["kind"].startswith("exchange:"):
         return json.dumps([r["kind"]])
     if r["kind"] == "inherited":
         why, detail = _explain(case, r["strategy"], 8)
@@ -410,7 +431,7 @@ SHRINK = K.Shrinker(PROP, ("outcomes", "conditions"), _evaluate, ("g", "outcomes
 
 
 def run_python(case):
-    r = _evaluate(case)
+    r = _evaluate(case, all_verdicts=True)
     by_order = r["by_order"]
     distinct = []
     for x in by_order:
@@ -428,12 +449,21 @@ def run_python(case):
             "unpatched_differs": r["unpatched"] not in by_order, "in_domain": r["in_domain"],
             "has_bidirected": bool(case["g"]["bi"]), "failure_kind": r["kind"], "rejected_possible": rejected_possible,
             "single_world_leaves": all(C07.single_world(x[1]) for x in by_order if x[0] == "ok"),
-            "condition_certainly_impossible": certainly_impossible(case["conditions"])}
+            "condition_certainly_impossible": certainly_impossible(case["conditions"]),
+            # task "hash seed": when the answer depends on the iteration order of a Python set, are all answers right?
+            "order_dependent_verdict": r["order_verdict"]}
     nontrivial = r["in_domain"] and K.n_worlds(jt) >= 1 and bool(case["g"]["di"] or case["g"]["bi"]) and \
         shape in ("P", "sum", "prod", "frac", "unidentifiable", "zero")
     out = {"out": ["orders", by_order], "fail": r["fail"], "nontrivial": bool(nontrivial), "tags": tags}
+    if r["fail"] and r["order_verdict"] == "mixed":
+        out["fail"] += (" [the answer depends on the iteration order of a Python set (PYTHONHASHSEED): under another order "
+                        "idc_star returns a CORRECT answer; verdict per distinct answer: %s]" % r["verdicts"])
     if r["fail"] and r["kind"] in COARSE:
-        out["finding_key"] = _coarse_key(case, r)
+        ck = _coarse_key(case, r)
+        if r["order_verdict"] == "mixed":
+            # the same input is answered correctly under one iteration order and wrongly under another
+            ck = json.dumps(["order-dependent-verdict", json.loads(ck)])
+        out["finding_key"] = ck
     elif r["fail"] and not case.get("_noshrink"):
         small, key = SHRINK.shrink_to_key(case, r["kind"])
         out["shrunk"] = small
